@@ -40,8 +40,20 @@ impl Typstyle {
         } else {
             return Err(Error::SyntaxError);
         };
-        // Infer indent from context.
-        let indent = utils::count_spaces_after_last_newline(source.text(), range.start);
+        // Infer indent from context: the indentation of the line the node starts on, or,
+        // for the body of a list/enum/term item, the column the body starts at
+        // (its following lines must stay in that item).
+        let node_start = node.range().start;
+        let is_item_body = node.kind() == SyntaxKind::Markup
+            && matches!(
+                node.parent_kind(),
+                Some(SyntaxKind::ListItem | SyntaxKind::EnumItem | SyntaxKind::TermItem)
+            );
+        let indent = if is_item_body {
+            utils::column_at(source.text(), node_start)
+        } else {
+            utils::count_spaces_after_last_newline(source.text(), node_start)
+        };
         let res = doc
             .nest(indent as isize)
             .pretty(self.config.max_width)
